@@ -81,6 +81,42 @@ def literals(vc):
     vc.check('cql_quote/non-text-is-str', vc.call('cassandra.encoder.cql_quote', 7) == '7')
 
 
+@harness('C27', 'index-target[2.x-schema]', functions=[M + 'SchemaParserV22._build_index_metadata', M + 'IndexMetadata.as_cql_query'], native='contracts.native.c27:replay')
+def index_target(vc):
+    """the index target the driver GENERATES itself when it reads a Cassandra 2.x schema (later versions are handed the target by the server): for every column name and
+    every kind of index - plain, keys(...) of a map, values of a collection, full(...) of a frozen collection, custom - ensures the target is the column name as
+    protect_name renders it (bare only when that reads back unchanged), wrapped in keys( ) / full( ) where the index kind says so, never the raw name"""
+    from cassandra import metadata
+    name = vc.str('column_name')
+    kind = vc.choice('index', ['plain', 'keys-of-a-map', 'values-of-a-collection', 'full-frozen-collection', 'custom', 'plain-on-a-frozen-udt'])
+    frozen = kind in ('full-frozen-collection', 'plain-on-a-frozen-udt')
+
+    class T(object):
+        def __init__(self, typename, subtypes=()):
+            self.typename, self.subtypes = typename, subtypes
+
+    class Table(object):
+        keyspace_name, name = 'ks', 'tb'
+
+    class Col(object):
+        table = Table()
+    col = Col()
+    col.name = name
+    col._cass_type = T('frozen', (T('list' if kind == 'full-frozen-collection' else 'udt'),)) if frozen else T('map' if kind.startswith('keys') else 'text')
+    options = {'keys-of-a-map': '{"index_keys": ""}', 'values-of-a-collection': '{"index_values": ""}', 'custom': '{"class_name": "org.example.Idx"}'}.get(kind)
+    row = {'index_name': 'idx', 'index_type': 'CUSTOM' if kind == 'custom' else 'COMPOSITES', 'index_options': options}
+    # callee contract: protect_name (discharged by the `identifiers` harness) is an arbitrary function here - the target must be ITS result, whatever that is
+    import z3
+    from pyvc.sym import SStr
+    PN = z3.Function('protect_name_result', z3.StringSort(), z3.StringSort())
+    vc.stub(M + 'protect_name', lambda n: SStr(PN(sym.lift(n).t)))
+    im = vc.call(metadata.SchemaParserV22._build_index_metadata, col, row)
+    target = get_attr(vc.ctx, im, 'index_options')['target'] if im is not None else None
+    safe = SStr(PN(name.t))
+    want = sym.lift('keys(') + safe + sym.lift(')') if kind == 'keys-of-a-map' else (sym.lift('full(') + safe + sym.lift(')') if kind == 'full-frozen-collection' else safe)
+    vc.check('target/is-the-protected-column-name-in-the-right-wrapper', im is not None and sym.and_(sym.lift(target) == want))
+
+
 @harness('C27', 'keyspace-switch', functions=['cassandra.connection.Connection.set_keyspace_blocking', 'cassandra.connection.Connection.set_keyspace_async'], native='contracts.native.c27:replay')
 def use_statement(vc):
     """for every keyspace name: ensures the statement sent by Connection.set_keyspace_blocking / set_keyspace_async is 'USE ' followed by the quoted form of the name (every " doubled)"""
@@ -101,4 +137,9 @@ def lexer_round_trip(tier, seed):
     return c27.quoting_round_trip(tier, seed)
 
 
-BOUNDED = [lexer_round_trip]
+def generated_ddl(tier, seed):
+    from contracts.native import c27
+    return c27.ddl_names_read_back(tier, seed)
+
+
+BOUNDED = [lexer_round_trip, generated_ddl]
